@@ -29,15 +29,20 @@ Expressions (all pure, single evaluation):
     `abs(x)` -> (Int.natAbs x : Int);  `min/max(a, b)` -> min/max;  `min/max(l, default=d)` -> Py.minD/maxD
     `len(l)` -> Py.len;  `math.prod(l)`, `np.prod(l)` -> Py.prod;  `sum(l)` -> Py.sum / Py.count (bools)
     `[a, b]`, `(a, b)`, `list(l)`, `tuple(l)`; `l1 + l2` -> ++;  `l * n` -> Py.repeat l n
-    `l[i]` -> Py.get l i (negative i from the end);  `l[:i]`, `l[i:]` -> Py.sliceTo / Py.sliceFrom
+    `l[i]` -> Py.get l i (negative i from the end);  `l[:i]`, `l[i:]`, `l[a:b]` -> Py.sliceTo / sliceFrom / slice
+    `None` -> none (element of a list[option[T]]);  `any(l)`, `all(l)` for a sequence of bools -> List.any/all l id
+    `itertools.product(*ls)` -> Py.product ls (list of lists, first factor slowest)
+    `map(f, l)` for a translated function or method f -> List.map (fun v => f .. v) l
     `t[k]` for a fixed-length tuple and literal k -> projection
-    `[e for x in it if c]` (one generator; `for i, d in enumerate(..)` allowed) -> List.map (List.filter ..)
+    `[e for x in it if c]` and the generator expression `(e for x in it if c)` (one generator;
+      `for i, d in enumerate(..)` allowed) -> List.map (List.filter ..)
     `range(n)`, `range(a, b)`, `enumerate(l)` as iterables -> Py.range, Py.range2, Py.enumerate
     numpy idioms: `np.array(l[, dtype])` -> l as arr;  `np.all(np.array(l) == c)` -> List.all l (· = c);
       `np.arange(n[, dtype])` -> Py.range n;  `np.ones(n[, dtype])` -> Py.full n 1;  `np.zeros` -> Py.full n 0;
       `arr + k`, `arr - k`, `arr * k`, `k + arr`, `k * arr` -> List.map
     `Enum.NAME` for an `enum.IntEnum` class of the same module -> its integer literal
-    a call of another translated function (bare or module-qualified name) -> the generated definition
+    a call of another translated function (bare, module-qualified or `self.` name) -> the generated definition;
+      parameters the callee reads from `self.<attr>` are passed from the same attribute of the caller
     source expressions named in a target's `inputs` (e.g. `param.shape`, `options.block_size`,
       `self._partitioner.split_sizes()`) -> the corresponding parameter of the generated definition
 Statements:
@@ -52,12 +57,19 @@ Statements:
       A `return` inside the body adds an `Option` component to the state (the early result): once it is
       `some _` the remaining iterations are the identity, and the result is returned after the fold.
     `return e`; `pass`; docstrings.  Reaching the end of the function returns `none` (see T | None).
-  Not translated (Untranslatable): while, break/continue, for-else, try/with/raise/assert/del, lambdas, nested
+    `assert c` -> if c then <rest> else none;  `x = f(..)` with a translated f that may return None ->
+      match f .. with | none => none | some x => <rest>  (Python would raise on the first use of None; exceptions
+      are not modelled, so in a function with an assert or such a call the result `none` means "no value": end
+      reached, assert failed, or None used).  Both only outside loops.
+  Not translated (Untranslatable): while, break/continue, for-else, try/with/raise/del, lambdas, nested
   defs, comprehensions with several generators, starred/keyword arguments (except dataclass constructors,
   `dtype=`, `default=`), strings, floats, division `/`, `**`, `in`, `is`, any unknown call or attribute.
 Extraction rules for functions that are not pure as a whole are explicit in TARGETS: `inputs` (source
-expression -> parameter), `opaque` (parameters that may only flow into a dropped constructor field) and
-`result` (expression returned after the last statement, e.g. the attributes `__init__` has set).  An expression
+expression -> parameter or expression over the parameters, e.g. `x.ndim` -> `len(x_shape)`; closure variables of a
+nested function are simply declared as parameters), `opaque` (parameters that may only flow into a dropped
+constructor field), `result` (expression returned after the last statement, e.g. the attributes `__init__` has
+set) and `returns` (what each returned expression stands for, e.g. `_GraftMask()` -> True, `x` -> False for the
+predicate of `_mask_skipped`).  An expression
 repeated inline (`to_pad = -n % d`) is extracted by the `assign-pattern` rule (class ExprTarget).
 Emitted text depends only on the AST of the target functions (no line numbers, comments or hashes), so a
 change that the text does not show is a change the translator does not see.
@@ -80,13 +92,14 @@ class Untranslatable(Exception):
 
 # ------------------------------------------------------------------------------------------ targets
 class Target:
-    def __init__(self, rel, qual, lean, params, ret, inputs=None, opaque=(), result=None):
+    def __init__(self, rel, qual, lean, params, ret, inputs=None, opaque=(), result=None, returns=None):
         self.rel, self.qual, self.lean = rel, qual, lean
         self.params = params            # [(lean parameter name, type string)] in the order of the Lean definition
         self.ret = ret                  # type string of the result
         self.inputs = inputs or {}      # ast.unparse(source expression) -> parameter name
         self.opaque = tuple(opaque)     # python parameters that are not translated
         self.result = result            # python expression returned at the end (for __init__)
+        self.returns = returns or {}    # ast.unparse(returned expression) -> python expression it stands for
 
 
 class ExprTarget:
@@ -152,6 +165,30 @@ TARGETS = [
            "tuple[list[int],int,int,list[int],list[int],list[int],int]",
            inputs={"options.block_size": "block_size"}, opaque=("debug",)),
     ExprTarget(DS, "to_pad", "toPad", 2),
+    Target(DS, "Preconditioner._preconditioner_shape", "preconditionerShape", [("compression_rank", "int"), ("dim", "int")], "list[int]",
+           inputs={"self._compression_rank": "compression_rank"}),
+    Target(DS, "Preconditioner.shapes_for_preconditioners", "shapesForPreconditioners",
+           [("split_sizes", "list[arr]"), ("preconditioner_type", "int"), ("compression_rank", "int")], "list[list[int]]",
+           inputs={"self._partitioner.split_sizes()": "split_sizes", "self._preconditioner_type": "preconditioner_type",
+                   "self._compression_rank": "compression_rank"}),
+    Target(DS, "Preconditioner.exponent_for_preconditioner", "exponentForPreconditioner",
+           [("split_sizes", "list[arr]"), ("preconditioner_type", "int")], "int",
+           inputs={"self._partitioner.split_sizes()": "split_sizes", "self._preconditioner_type": "preconditioner_type"}),
+    # the preconditioner objects are stood for by optional ints (list positions): the function only moves them around
+    Target(DS, "Preconditioner._preconds_for_grad", "precondsForGrad",
+           [("preconditioners", "list[option[int]]"), ("preconditioner_type", "int"), ("rank", "int"), ("start", "int"), ("end", "int")],
+           "list[option[int]]", inputs={"self._preconditioner_type": "preconditioner_type"}),
+    # closure of distributed_shampoo(): the two thresholds are the enclosing function's arguments
+    Target(DS, "distributed_shampoo._skip_preconditioning", "dsSkipPreconditioning",
+           [("skip_preconditioning_rank_lt", "int"), ("skip_preconditioning_dim_size_gt", "int"), ("param_shape", "list[int]")], "bool",
+           inputs={"param.shape": "param_shape"}),
+    # predicate of tearfree grafting._mask_skipped: `return _GraftMask()` = masked, `return x` = kept
+    Target(os.path.join("tearfree", "grafting.py"), "_mask_skipped._maybe_mask", "tfMaskSkipped",
+           [("skip_preconditioning_rank1", "bool"), ("skip_preconditioning_any_dim_gt", "int"), ("x_shape", "list[int]")], "bool",
+           inputs={"options.skip_preconditioning_rank1": "skip_preconditioning_rank1",
+                   "options.skip_preconditioning_any_dim_gt": "skip_preconditioning_any_dim_gt", "x.shape": "x_shape", "x.ndim": "len(x_shape)"},
+           returns={"_GraftMask()": "True", "x": "False"}),
+    Target("sm3.py", "sm3._get_expanded_shape", "sm3ExpandedShape", [("shape", "list[int]"), ("i", "int")], "list[int]"),
 ]
 
 LEAN_KEYWORDS = {
@@ -338,7 +375,8 @@ class FnTranslator:
         self.holes = {}         # placeholder -> TVar (type annotation of a `[]` literal)
         self.used = set()       # environment names read (for the free variables of loop bodies)
         self.ret_ty = parse_type(target.ret)
-        self.falls = False      # set when the end of the function is reachable
+        self.option = False     # result is Option (end reachable without return / assert / None-able callee)
+        self.in_loop = False
         self.pynames = {n.id for n in ast.walk(self.fn) if isinstance(n, ast.Name)} | {a.arg for a in self.fn.args.args}
 
     def bad(self, node, what):
@@ -365,9 +403,13 @@ class FnTranslator:
         key = ast.unparse(e)
         if key in self.t.inputs:
             p = self.t.inputs[key]
-            self.used.add(p)
-            return lname(p), env[p]
+            if p in env:
+                self.used.add(p)
+                return lname(p), env[p]
+            return self.expr(ast.parse(p, mode="eval").body, env)     # an expression over the parameters
         if isinstance(e, ast.Constant):
+            if e.value is None:
+                return "none", ("option", TVar())
             if type(e.value) is bool:
                 return ("true" if e.value else "false"), "bool"
             if type(e.value) is int:
@@ -420,7 +462,7 @@ class FnTranslator:
             return self.seq_literal(e, env)
         if isinstance(e, ast.Subscript):
             return self.subscript(e, env)
-        if isinstance(e, ast.ListComp):
+        if isinstance(e, (ast.ListComp, ast.GeneratorExp)):
             return self.listcomp(e, env)
         if isinstance(e, ast.Call):
             return self.call(e, env)
@@ -525,7 +567,10 @@ class FnTranslator:
                 return f"(Py.sliceTo {a} {self.int_expr(sl.upper, env, 'slice bound')})", ta
             if sl.upper is None and sl.lower is not None:
                 return f"(Py.sliceFrom {a} {self.int_expr(sl.lower, env, 'slice bound')})", ta
-            self.bad(e, "slice with two bounds / no bound")
+            if sl.lower is not None and sl.upper is not None:
+                return (f"(Py.slice {a} {self.int_expr(sl.lower, env, 'slice bound')} "
+                        f"{self.int_expr(sl.upper, env, 'slice bound')})"), ta
+            self.bad(e, "slice without bounds")
         if isinstance(ta, tuple) and ta[0] == "tuple":
             if isinstance(e.slice, ast.Constant) and type(e.slice.value) is int and 0 <= e.slice.value < len(ta[1]):
                 return "(" + proj(a, e.slice.value, len(ta[1])) + ")", ta[1][e.slice.value]
@@ -563,6 +608,34 @@ class FnTranslator:
             self.bad(e, "iteration over a non-sequence")
         return a, elem_ty(ta)
 
+    def callee(self, fnode):
+        """Registry entry of a translated function referred to as `name`, `module.name` or `self.name`."""
+        f = ast.unparse(fnode)
+        base = f.split(".")[-1]
+        if base in self.known and (f.count(".") == 0 or (f.count(".") == 1)):
+            return base, self.known[base]
+        return None, None
+
+    def apply_known(self, node, base, entry, arg_texts, env):
+        """Text and type of a call of a translated function: positional arguments fill the non-self parameters in
+        order; parameters the callee reads from `self.<..>` are taken from the same source expression here."""
+        ln, plist, rty = entry
+        parts, i = [], 0
+        for kind, pty, src in plist:
+            if kind == "self":
+                a, ta = self.expr(ast.parse(src, mode="eval").body, env)
+            else:
+                if i >= len(arg_texts):
+                    self.bad(node, f"call of {base} with too few arguments")
+                a, ta = arg_texts[i]
+                i += 1
+            if not unify(ta, pty, False):
+                self.bad(node, f"argument of {base} has type {res(ta)}, expected {res(pty)}")
+            parts.append(a)
+        if i != len(arg_texts):
+            self.bad(node, f"call of {base} with {len(arg_texts)} arguments")
+        return f"({ln} {' '.join(parts)})", rty
+
     def listcomp(self, e, env):
         if len(e.generators) != 1 or e.generators[0].is_async:
             self.bad(e, "comprehension with several generators")
@@ -589,7 +662,7 @@ class FnTranslator:
     def call(self, e, env):
         f = ast.unparse(e.func)
         kw = {k.arg: k.value for k in e.keywords}
-        if None in kw or any(isinstance(a, ast.Starred) for a in e.args):
+        if None in kw or (any(isinstance(a, ast.Starred) for a in e.args) and f != "itertools.product"):
             self.bad(e, "starred / ** arguments")
         nargs = len(e.args)
 
@@ -645,19 +718,30 @@ class FnTranslator:
             return f"(Py.range {self.int_expr(e.args[0], env, 'arange bound')})", "arr"
         if f in ("np.ones", "np.zeros") and nargs == 1 and set(kw) <= {"dtype"}:
             return f"(Py.full {self.int_expr(e.args[0], env, 'array length')} ({1 if f == 'np.ones' else 0} : Int))", "arr"
-        # another translated function (bare name or module.name)
-        base = f.split(".")[-1]
-        if base in self.known and not kw and f.count(".") <= 1:
-            ln, ptys, rty = self.known[base]
-            if nargs != len(ptys):
-                self.bad(e, f"call of {base} with {nargs} arguments")
-            parts = []
-            for i, pt in enumerate(ptys):
-                a, ta = arg(i)
-                if not unify(ta, pt, False):
-                    self.bad(e, f"argument {i} of {base} has type {res(ta)}")
-                parts.append(a)
-            return f"({ln} {' '.join(parts)})", rty
+        if f in ("any", "all") and nargs == 1 and not kw:
+            a, ta = arg(0)
+            if not (is_seq(ta) and res(elem_ty(ta)) == "bool"):
+                self.bad(e, f + " of anything but a sequence of bools")
+            return f"(List.{f} {a} id)", "bool"
+        if f == "itertools.product" and nargs == 1 and not kw and isinstance(e.args[0], ast.Starred):
+            a, ta = self.expr(e.args[0].value, env)
+            if not (is_seq(ta) and is_seq(elem_ty(ta))):
+                self.bad(e, "itertools.product(*x) of anything but a list of sequences")
+            et = res(elem_ty(ta))
+            return f"(Py.product {a})", ("list", ("list", elem_ty(et)))
+        if f == "map" and nargs == 2 and not kw:
+            base, entry = self.callee(e.args[0])
+            if entry is None:
+                self.bad(e, "map of anything but a translated function")
+            a, ta = arg(1)
+            if not is_seq(ta):
+                self.bad(e, "map over a non-sequence")
+            body, rty = self.apply_known(e, base, entry, [("py_m", elem_ty(ta))], env)
+            return f"(List.map (fun (py_m : {lean_ty(elem_ty(ta))}) => {body}) {a})", ("list", rty)
+        # another translated function (bare name, module.name or self.name)
+        base, entry = self.callee(e.func)
+        if entry is not None and not kw:
+            return self.apply_known(e, base, entry, [arg(i) for i in range(nargs)], env)
         # keyword-only dataclass constructor of this module -> tuple in field order
         fields = self.mod.dataclass_fields(f)
         if fields is not None and nargs == 0 and set(kw) == set(fields):
@@ -729,6 +813,17 @@ class FnTranslator:
             return [] if lname(names[0]) == var else [f"let {lname(names[0])} := {var}"]
         return [f"let {lname(n)} := {proj(var, i, len(names))}" for i, n in enumerate(names)]
 
+    def opt_call(self, s):
+        """`x = f(..)` where the translated f may return None."""
+        if isinstance(s, ast.Assign) and isinstance(s.value, ast.Call):
+            _, entry = self.callee(s.value.func)
+            return entry is not None and isinstance(res(entry[2]), tuple) and res(entry[2])[0] == "option"
+        return False
+
+    def has_exit(self, stmts):
+        """The block can leave the function (or produce `none`) in the middle: return, assert, bind of a None-able call."""
+        return any(isinstance(n, (ast.Return, ast.Assert)) or self.opt_call(n) for st in stmts for n in ast.walk(st))
+
     def block(self, stmts, env, k, ret):
         """Lines of the Lean term for `stmts` followed by the continuation k(env); ret(text, type, node) renders a return."""
         if not stmts:
@@ -743,7 +838,13 @@ class FnTranslator:
         if isinstance(s, ast.Return):
             if s.value is None:
                 self.bad(s, "bare return")
-            a, ta = self.expr(s.value, env)
+            val = s.value
+            if self.t.returns:
+                key = ast.unparse(val)
+                if key not in self.t.returns:
+                    self.bad(s, f"return of `{key}`, which the target's `returns` rule does not name")
+                val = ast.parse(self.t.returns[key], mode="eval").body
+            a, ta = self.expr(val, env)
             return ret(a, ta, s)
         if isinstance(s, ast.Assign):
             if len(s.targets) != 1:
@@ -765,6 +866,11 @@ class FnTranslator:
             if tv == "opaque":
                 self.bad(s, "assignment of an untranslated value")
             env2 = dict(env)
+            if self.opt_call(s):
+                if not self.option or self.in_loop:
+                    self.bad(s, "use of a possibly-None result inside a loop")
+                env2[n] = res(tv)[1]
+                return [f"match {v} with", "| none => none", f"| some {lname(n)} =>"] + ["  " + x for x in cont(env2)]
             env2[n] = tv
             return [f"let {lname(n)} := {v}"] + cont(env2)
         if isinstance(s, ast.AugAssign):
@@ -792,6 +898,10 @@ class FnTranslator:
                     self.bad(s, "extend with a different element type")
                 return [f"let {lname(n)} := {lname(n)} ++ {v}"] + cont(env)
             self.bad(s, "expression statement " + ast.unparse(c)[:40])
+        if isinstance(s, ast.Assert):
+            if not self.option or self.in_loop:
+                self.bad(s, "assert inside a loop")
+            return [f"if {self.truth(s.test, env)} then"] + ["  " + x for x in cont(env)] + ["else", "  none"]
         if isinstance(s, ast.If):
             return self.if_stmt(s, env, cont, ret)
         if isinstance(s, ast.For):
@@ -800,7 +910,7 @@ class FnTranslator:
 
     def if_stmt(self, s, env, cont, ret):
         c = self.truth(s.test, env)
-        if contains(s.body + s.orelse, ast.Return):
+        if self.has_exit(s.body + s.orelse):
             a = self.block(s.body, env, cont, ret)
             b = self.block(s.orelse, env, cont, ret)
             return [f"if {c} then"] + ["  " + x for x in a] + ["else"] + ["  " + x for x in b]
@@ -841,6 +951,7 @@ class FnTranslator:
         state = [n for n in self.assigned(s.body, env_b) if n in env and n not in lv]
         early = contains(s.body, ast.Return)
         outer_used, self.used = self.used, set()
+        outer_loop, self.in_loop = self.in_loop, True
         ends = []
 
         def st_tuple(first, names):
@@ -856,6 +967,7 @@ class FnTranslator:
                 self.bad(node, f"return of {res(ta)}, declared {self.t.ret}")
             return [st_tuple(f"some {a}", state)]
         body = self.block(s.body, env_b, k, ret_b)
+        self.in_loop = outer_loop
         if not state and not early:
             self.bad(s, "loop without effect")
         for e2 in ends:
@@ -913,7 +1025,8 @@ class FnTranslator:
                 self.bad(fn, "`result` rule on a function that returns")
             body.append(ast.copy_location(ast.Return(value=ast.parse(t.result, mode="eval").body), body[-1]))
             ast.fix_missing_locations(body[-1])
-        option = not self.always_returns(body)
+        option = self.option = (not self.always_returns(body)) or any(
+            isinstance(n, ast.Assert) or self.opt_call(n) for st in body for n in ast.walk(st))
 
         def ret(a, ta, node):
             if not unify(ta, self.ret_ty, False):
@@ -974,8 +1087,10 @@ def generate(src_dir=None, targets=None):
                 rec["lines"] = [tr.fn.lineno, tr.fn.end_lineno]
             rec["source_sha256"] = hashlib.sha256(seg.encode()).hexdigest()
             text, option = tr.translate()
+            rec["option"] = option
             rty = ("option", tr.ret_ty) if option else tr.ret_ty
-            known[t.qual.split(".")[-1]] = (t.lean, [parse_type(p) for _, p in t.params], rty)
+            selfsrc = {v: k for k, v in getattr(t, "inputs", {}).items() if k.startswith("self.")}
+            known[t.qual.split(".")[-1]] = (t.lean, [("self" if n in selfsrc else "arg", parse_type(p), selfsrc.get(n)) for n, p in t.params], rty)
             chunks.append(f"/-- `{rec['function'].replace(os.sep, '/')}` -/\n" + text)
         except Untranslatable as e:
             rec["error"] = {"function": e.function, "lineno": e.lineno, "construct": e.construct}
